@@ -818,3 +818,291 @@ Proof.
   intros c s t H Hm Hd. cbn. rewrite H. unfold dial. cbn. rewrite Hm.
   replace (fdelay s <=? 0) with true by (symmetry; apply Z.leb_le; exact Hd). reflexivity.
 Qed.
+
+(* ---------- totality of the pacing machine (fuel suffices) ---------- *)
+Open Scope R_scope.
+
+(* loop values stay >= a lower bound when the multiplier is >= 1 *)
+Definition NNFL (lb : R) (b : PrimFloat.float) : Prop :=
+  exists v, FR b v /\ lb <= v /\ 0 <= v /\ Bsign (FP.Prim2B b) = false.
+
+Lemma mul_step_lb : forall lb b m vm, NNFL lb b -> FR m vm -> 1 <= vm ->
+  NNFL lb (b * m)%float \/ PINF (b * m)%float.
+Proof.
+  intros lb b m vm (v & Hb & Hlb & Hv & Sb) Hm Hvm.
+  assert (Sm : Bsign (FP.Prim2B m) = false) by (eapply FR_pos_sign; [exact Hm | lra]).
+  unfold NNFL, PINF, FR. rewrite FP.mul_equiv.
+  generalize (Bmult_correct prec emax FP.Hprec FP.Hmax mode_NE (FP.Prim2B b) (FP.Prim2B m)).
+  assert (Hid := rnd_id _ _ Hb).
+  destruct Hb as [Fb Eb]. destruct Hm as [Fm Em]. rewrite Eb, Em, Sb, Sm.
+  change (round radix2 _ _ (v * vm)) with (rnd (v * vm)).
+  destruct (Rlt_bool (Rabs (rnd (v * vm))) (bpow radix2 emax)).
+  - intros (H1 & H2 & H3). left. exists (rnd (v * vm)).
+    assert (Hge : v <= rnd (v * vm)) by (rewrite <- Hid at 1; apply rnd_le; nra).
+    split. split. rewrite H2, Fb, Fm. reflexivity. exact H1.
+    split. lra. split. lra.
+    apply H3. destruct (Bmult mode_NE (FP.Prim2B b) (FP.Prim2B m)); try reflexivity.
+    rewrite Fb, Fm in H2. discriminate H2.
+  - intro H. right. cbn in H.
+    destruct (Bmult mode_NE (FP.Prim2B b) (FP.Prim2B m)); cbn in H; try discriminate H.
+    injection H as ->. reflexivity.
+Qed.
+
+Lemma loop_inv_lb : forall lb n b mx m vm, FR m vm -> 1 <= vm -> NNFL lb b \/ PINF b ->
+  NNFL lb (loop n b mx m) \/ PINF (loop n b mx m).
+Proof.
+  induction n as [|n IH]; intros b mx m vm Hm Hvm Hb; cbn [loop]. exact Hb.
+  destruct Hb as [Hb | Hb].
+  - destruct (PrimFloat.ltb b mx). apply (IH _ _ _ vm Hm Hvm). apply (mul_step_lb _ _ _ vm); assumption.
+    left; exact Hb.
+  - rewrite (PINF_not_lt _ _ Hb). right; exact Hb.
+Qed.
+
+Lemma SF2Prim_zero : forall x, Prim2SF x = S754_zero false -> x = 0%float.
+Proof. intros x H. rewrite <- (SF2Prim_Prim2SF x), H. reflexivity. Qed.
+
+Lemma pacing_ok_inv : forall c, pacing_ok c = true ->
+  (1000000 <= base c)%Z /\ (base c <= maxd c)%Z /\ (maxd c < 2 ^ 53)%Z /\
+  (exists vm, FR (mult c) vm /\ 1 <= vm) /\ jit c = 0%float.
+Proof.
+  intros c H. unfold pacing_ok in H.
+  apply andb_prop in H; destruct H as [H H6]. apply andb_prop in H; destruct H as [H H5].
+  apply andb_prop in H; destruct H as [H H4]. apply andb_prop in H; destruct H as [H H3].
+  apply andb_prop in H; destruct H as [H1 H2].
+  apply Z.leb_le in H1, H2. apply Z.ltb_lt in H3.
+  repeat split; try assumption.
+  - apply (above_FR _ _ _ FR_one); assumption.
+  - apply SF2Prim_zero. destruct (Prim2SF (jit c)) as [[|]| | |]; try discriminate H6. reflexivity.
+Qed.
+
+Lemma of_i64_exact : forall z, (0 <= z < 2 ^ 53)%Z -> FR (of_i64 z) (IZR z).
+Proof.
+  intros z Hz. destruct (FR_of_i64 z) as (H & _ & _).
+  { unfold max_i64. assert (2 ^ 53 < 2 ^ 63)%Z by reflexivity. lia. }
+  rewrite rnd_int_exact in H. exact H. rewrite Z.abs_eq; lia.
+Qed.
+
+Lemma capped_lb : forall c n, pacing_ok c = true ->
+  exists vc, FR (capped c n) vc /\ IZR (base c) <= vc <= R63.
+Proof.
+  intros c n Hp. destruct (pacing_ok_inv c Hp) as (Hb & Hbx & Hx & (vm & Hm & Hvm) & _).
+  assert (Fb := of_i64_exact (base c) ltac:(lia)). assert (Fx := of_i64_exact (maxd c) ltac:(lia)).
+  assert (Hx63 : IZR (maxd c) <= R63).
+  { unfold R63. apply IZR_le. assert (2 ^ 53 < 2 ^ 63)%Z by reflexivity. lia. }
+  assert (Hbpos : 0 <= IZR (base c)) by (apply IZR_le; lia).
+  assert (Hbx' : IZR (base c) <= IZR (maxd c)) by (apply IZR_le; exact Hbx).
+  unfold capped.
+  assert (L : NNFL (IZR (base c)) (loop n (of_i64 (base c)) (of_i64 (maxd c)) (mult c)) \/
+              PINF (loop n (of_i64 (base c)) (of_i64 (maxd c)) (mult c))).
+  { apply (loop_inv_lb _ _ _ _ _ vm Hm Hvm). left. exists (IZR (base c)).
+    split. exact Fb. split. lra. split. exact Hbpos.
+    destruct (FR_of_i64 (base c)) as (_ & _ & S). unfold max_i64. assert (2 ^ 53 < 2 ^ 63)%Z by reflexivity. lia. exact S. }
+  destruct L as [(v & Fv & Hlb & Hv & _) | Hinf].
+  - rewrite (FR_ltb _ _ _ _ Fx Fv). destruct (Rlt_bool_spec (IZR (maxd c)) v).
+    + eexists. split. exact Fx. lra.
+    + exists v. split. exact Fv. lra.
+  - rewrite FP.ltb_equiv, Hinf. destruct Fx as [Ffx Efx].
+    destruct (FP.Prim2B (of_i64 (maxd c))) as [s|s| |s m e Hbd] eqn:E; try discriminate Ffx.
+    + cbn. eexists. split. split. rewrite E. reflexivity. rewrite E. exact Efx. lra.
+    + replace (Bltb (B754_finite s m e Hbd) (B754_infinity false)) with true by (destruct s; reflexivity).
+      eexists. split. split. rewrite E. reflexivity. rewrite E. exact Efx. lra.
+Qed.
+
+Lemma factor_zero : factor 0%float 0%float = 1%float.
+Proof. reflexivity. Qed.
+
+Close Scope R_scope.
+
+(* with the pacing strategy every backoff is at least the base delay *)
+Lemma bo_ge_base : forall c i, pacing_ok c = true -> base c <= bo c i.
+Proof.
+  intros c i Hp. unfold bo, backoff. destruct (i =? 0). lia.
+  destruct (pacing_ok_inv c Hp) as (Hb & _ & _ & _ & Hj). rewrite Hj, factor_zero.
+  destruct (capped_lb c (Z.to_nat i) Hp) as (vc & Fc & Hlo & Hhi).
+  assert (Fp : FR (capped c (Z.to_nat i) * 1)%float vc).
+  { assert (Hpos0 : (0 <= vc <= R63)%R).
+    { split; [|exact Hhi]. apply Rle_trans with (IZR (base c)); [apply IZR_le; lia | exact Hlo]. }
+    assert (Hq : FR (capped c (Z.to_nat i) * 1)%float (rnd (vc * 1))).
+    { apply FR_mul. exact Fc. exact FR_one. rewrite Rmult_1_r, (rnd_id _ _ Fc). apply R63_small. exact Hpos0. }
+    rewrite Rmult_1_r, (rnd_id _ _ Fc) in Hq. exact Hq. }
+  rewrite (conv_R _ _ Fp). unfold convR.
+  assert (Hpos : (0 <= vc)%R) by (apply Rle_trans with (IZR (base c)); [apply IZR_le; lia | exact Hlo]).
+  destruct (Rlt_bool_spec vc 0). lra.
+  destruct (Rle_bool_spec R63 vc).
+  - unfold max_i64. destruct (pacing_ok_inv c Hp) as (_ & Hbx & Hx & _). assert (2 ^ 53 < 2 ^ 63) by reflexivity. lia.
+  - rewrite <- (Zfloor_IZR (base c)). apply Zfloor_le. exact Hlo.
+Qed.
+
+(* fuel needed to let time pass until [target] *)
+Definition need (c : config) (target : Z) (s : pstate) : Z :=
+  match ph s with
+  | PBackoff T => if T <=? target then 2 * ((target - T) / base c) + 2 else 0
+  | PConnecting T b =>
+    if T <=? target then (if T + b <=? target then 2 * ((target - (T + b)) / base c) + 3 else 1) else 0
+  | _ => 0
+  end.
+
+(* timers are not in the past and an in-flight attempt carries a backoff >= base *)
+Definition good (c : config) (s : pstate) : Prop :=
+  match ph s with
+  | PBackoff T => now s <= T
+  | PConnecting T b => now s <= T /\ base c <= b
+  | _ => True
+  end.
+Definition phase_ok (c : config) (s : pstate) : Prop :=
+  match ph s with PConnecting _ b => base c <= b | _ => True end.
+
+Lemma div_step : forall x y B, 0 < B -> B <= y -> (x - y) / B + 1 <= x / B.
+Proof.
+  intros x y B HB Hy. assert ((x - y) / B <= (x - B) / B) by (apply Z.div_le_mono; lia).
+  replace (x - B) with (x + (-1) * B) in H by lia. rewrite Z.div_add in H by lia. lia.
+Qed.
+
+Lemma fail_after_nonneg : forall c i h, 0 < h -> 0 <= fail_after c i h.
+Proof. intros c i h H. unfold fail_after, mct. lia. Qed.
+
+Lemma advance_total : forall c, pacing_ok c = true -> forall fuel target s,
+  phase_ok c s -> need c target s <= Z.of_nat fuel ->
+  exists s' ds, advance fuel c target s = Some (s', ds) /\ good c s' /\ now s' = target.
+Proof.
+  intros c Hp. assert (HB : 0 < base c) by (destruct (pacing_ok_inv c Hp); lia).
+  induction fuel as [|f IH]; intros target s Hok Hn; unfold need in Hn; cbn [advance].
+  - destruct (ph s) as [|t b|t|] eqn:P.
+    + eexists _, _. split. reflexivity. unfold good. cbn. rewrite ?P. auto.
+    + destruct (t <=? target) eqn:E.
+      * exfalso. destruct (t + b <=? target) eqn:E2; [|lia].
+        assert (0 <= (target - (t + b)) / base c) by (apply Z.div_pos; [apply Z.leb_le in E2; lia | lia]). lia.
+      * apply Z.leb_gt in E. eexists _, _. split. reflexivity. unfold good, phase_ok in *. cbn. rewrite ?P in *. split; [split; [lia|exact Hok]|reflexivity].
+    + destruct (t <=? target) eqn:E.
+      * exfalso. apply Z.leb_le in E. assert (0 <= (target - t) / base c) by (apply Z.div_pos; lia). lia.
+      * apply Z.leb_gt in E. eexists _, _. split. reflexivity. unfold good. cbn. rewrite ?P. split; [lia|reflexivity].
+    + eexists _, _. split. reflexivity. unfold good. cbn. rewrite ?P. auto.
+  - destruct (ph s) as [|t b|t|] eqn:P.
+    + eexists _, _. split. reflexivity. unfold good. cbn. rewrite ?P. auto.
+    + unfold phase_ok in Hok. rewrite ?P in Hok.
+      destruct (t <=? target) eqn:E.
+      * (* the slow dial fails at t *)
+        destruct (IH target (mkp t (okmode s) (idx s) (PBackoff (t + b)) (fdelay s) true)) as (s' & ds & Ha & Hg & Ht).
+        { exact I. }
+        { unfold need. cbn [ph]. destruct (t + b <=? target); lia. }
+        exists s', ds. auto.
+      * apply Z.leb_gt in E. eexists _, _. split. reflexivity. unfold good. cbn. rewrite ?P. split; [split; [lia|exact Hok]|reflexivity].
+    + destruct (t <=? target) eqn:E.
+      * apply Z.leb_le in E.
+        assert (Hq : 0 <= (target - t) / base c) by (apply Z.div_pos; lia).
+        rewrite Nat2Z.inj_succ in Hn.
+        set (s1 := dial c (mkp t (okmode s) (idx s + 1) PIdle (fdelay s) (sticky s))).
+        assert (H1 : phase_ok c s1 /\ need c target s1 <= Z.of_nat f).
+        { unfold s1, dial. cbn [okmode now idx fdelay sticky]. destruct (okmode s).
+          - split. exact I. unfold need. cbn. lia.
+          - assert (Hbo := bo_ge_base c (idx s + 1) Hp).
+            destruct (fdelay s <=? 0) eqn:Ed.
+            + split. exact I. unfold need. cbn [ph].
+              destruct (t + bo c (idx s + 1) <=? target) eqn:E3; [|lia].
+              replace (target - (t + bo c (idx s + 1))) with ((target - t) - bo c (idx s + 1)) by lia.
+              generalize (div_step (target - t) (bo c (idx s + 1)) (base c) HB Hbo). lia.
+            + apply Z.leb_gt in Ed. assert (Hfa := fail_after_nonneg c (idx s + 1) (fdelay s) Ed).
+              split. unfold phase_ok. cbn. exact Hbo. unfold need. cbn [ph].
+              destruct (t + fail_after c (idx s + 1) (fdelay s) <=? target); [|lia].
+              destruct (t + fail_after c (idx s + 1) (fdelay s) + bo c (idx s + 1) <=? target) eqn:E4; [|lia].
+              replace (target - (t + fail_after c (idx s + 1) (fdelay s) + bo c (idx s + 1)))
+                with ((target - t) - (fail_after c (idx s + 1) (fdelay s) + bo c (idx s + 1))) by lia.
+              generalize (div_step (target - t) (fail_after c (idx s + 1) (fdelay s) + bo c (idx s + 1)) (base c) HB ltac:(lia)). lia. }
+        destruct H1 as [Hok1 Hn1].
+        destruct (IH target s1 Hok1 Hn1) as (s' & ds & Ha & Hg & Ht). fold s1. rewrite Ha.
+        eexists _, _. split. reflexivity. auto.
+      * apply Z.leb_gt in E. eexists _, _. split. reflexivity. unfold good. cbn. rewrite ?P. split; [lia|reflexivity].
+    + eexists _, _. split. reflexivity. unfold good. cbn. rewrite ?P. auto.
+Qed.
+
+Lemma good_phase_ok : forall c s, good c s -> phase_ok c s.
+Proof. intros c s. unfold good, phase_ok. destruct (ph s); auto. intros [_ H]. exact H. Qed.
+
+Lemma dial_good : forall c s, pacing_ok c = true -> good c (dial c s).
+Proof.
+  intros c s Hp. assert (Hbo := bo_ge_base c (idx s) Hp). assert (0 < base c) by (destruct (pacing_ok_inv c Hp); lia).
+  unfold dial, good. destruct (okmode s). exact I. destruct (fdelay s <=? 0) eqn:E; cbn. lia.
+  apply Z.leb_gt in E. generalize (fail_after_nonneg c (idx s) (fdelay s) E). lia.
+Qed.
+
+(* pacing ops that the driver generates: time steps within 60 base delays, delays >= 0 *)
+Definition pacing_wf (c : config) (op : word) : bool :=
+  match pop_of op with
+  | Some (Padv dt) => (0 <=? dt) && (dt <=? 60 * base c)
+  | Some (Pdelay h) => 0 <=? h
+  | Some _ => true
+  | None => false
+  end.
+
+Lemma pstep_total : forall c s op, pacing_ok c = true -> good c s -> pacing_wf c op = true ->
+  exists s' o, pstep c s op = Some (s', o) /\ good c s'.
+Proof.
+  intros c s op Hp Hg Hw. assert (HB : 0 < base c) by (destruct (pacing_ok_inv c Hp); lia).
+  unfold pacing_wf in Hw. unfold pstep.
+  destruct (pop_of op) as [[md|dt| | | |h]|]; [..|discriminate Hw].
+  - eexists _, _. split. reflexivity. unfold good in *. cbn. exact Hg.
+  - apply andb_prop in Hw. destruct Hw as [H0 H1]. apply Z.leb_le in H0, H1.
+    replace ((dt <? 0) || (60 * base c <? dt)) with false
+      by (symmetry; apply orb_false_intro; [apply Z.ltb_ge | apply Z.ltb_ge]; lia).
+    destruct (advance_total c Hp adv_fuel (now s + dt) s (good_phase_ok _ _ Hg)) as (s' & ds & Ha & Hg' & _).
+    { unfold need, good in *. destruct (ph s) as [|t b|t|]; try (cbn; lia).
+      - destruct Hg as [Hn Hb]. destruct (t <=? now s + dt) eqn:E; [|cbn; lia].
+        destruct (t + b <=? now s + dt) eqn:E2; [|cbn; lia]. apply Z.leb_le in E, E2.
+        assert ((now s + dt - (t + b)) / base c <= 60) by (apply Z.div_le_upper_bound; lia).
+        replace (Z.of_nat adv_fuel) with 200 by reflexivity. lia.
+      - destruct (t <=? now s + dt) eqn:E; [|cbn; lia]. apply Z.leb_le in E.
+        assert ((now s + dt - t) / base c <= 60) by (apply Z.div_le_upper_bound; lia).
+        replace (Z.of_nat adv_fuel) with 200 by reflexivity. lia. }
+    rewrite Ha. eexists _, _. split. reflexivity. exact Hg'.
+  - destruct (ph s) as [|t b|t|] eqn:P.
+    + eexists _, _. split. reflexivity. unfold good. cbn. rewrite ?P. exact I.
+    + eexists _, _. split. reflexivity. exact Hg.
+    + eexists _, _. split. reflexivity. apply dial_good. exact Hp.
+    + eexists _, _. split. reflexivity. unfold good. cbn. rewrite ?P. exact I.
+  - destruct (ph s) as [|t b|t|] eqn:P; eexists _, _; (split; [reflexivity|]); try exact Hg.
+    unfold good. cbn. exact I.
+  - destruct (ph s) as [|t b|t|] eqn:P; eexists _, _; (split; [reflexivity|]); try exact Hg.
+    apply dial_good. exact Hp.
+  - apply Z.leb_le in Hw. replace (h <? 0) with false by (symmetry; apply Z.ltb_ge; exact Hw).
+    eexists _, _. split. reflexivity. unfold good in *. cbn. exact Hg.
+Qed.
+
+(* well-formed ops: Backoff calls with n >= 0 and a draw in [0, 1-2^-53]; pacing ops of the
+   shapes above (when the configuration is a pacing configuration) *)
+Definition op_wf_total (c : config) (op : word) : bool :=
+  match pure_op op with
+  | Some (n, rb) => (0 <=? n) && draw_ok (of_bits rb)
+  | None => if pacing_ok c then pacing_wf c op else true
+  end.
+
+Lemma op_wf_total_wf : forall c ops, forallb (op_wf_total c) ops = true -> forallb op_wf ops = true.
+Proof.
+  intros c ops H. induction ops as [|op ops IH]. reflexivity.
+  cbn [forallb] in *. apply andb_prop in H. destruct H as [H1 H2]. rewrite (IH H2), andb_true_r.
+  unfold op_wf_total in H1. unfold op_wf. destruct (pure_op op) as [[n rb]|]; [exact H1|reflexivity].
+Qed.
+
+Lemma run_from_total : forall c ops s, (pacing_ok c = true -> good c s) ->
+  forallb (op_wf_total c) ops = true -> exists obs, run_from c s ops = Some obs.
+Proof.
+  intros c. induction ops as [|op ops IH]; intros s Hg Hw. exists []. reflexivity.
+  cbn [forallb] in Hw. apply andb_prop in Hw. destruct Hw as [H1 H2]. unfold op_wf_total in H1.
+  cbn [run_from]. destruct (pure_op op) as [[n rb]|].
+  - destruct (IH s Hg H2) as (os & Hr). rewrite Hr. eexists. reflexivity.
+  - destruct (pacing_ok c) eqn:Hp.
+    + destruct (pstep_total c s op Hp (Hg eq_refl) H1) as (s' & o & Hs & Hg').
+      rewrite Hs. destruct (IH s' (fun _ => Hg') H2) as (os & Hr). rewrite Hr. eexists. reflexivity.
+    + destruct (IH s Hg H2) as (os & Hr). rewrite Hr. eexists. reflexivity.
+Qed.
+
+(* the bridge, total form *)
+Lemma model_trace_exists_holds : forall cfg c ops, decode_cfg cfg = Some c -> cfg_wf c = true ->
+  forallb (op_wf_total c) ops = true ->
+  exists obs, run cfg ops = Some obs /\ holds_b cfg ops obs = true.
+Proof.
+  intros cfg c ops Hd Hc Hw.
+  destruct (run_from_total c ops pinit (fun _ => I) Hw) as (obs & Hr).
+  assert (Hrun : run cfg ops = Some obs) by (unfold run; rewrite Hd; exact Hr).
+  exists obs. split. exact Hrun.
+  eapply model_trace_holds; try eassumption. eapply op_wf_total_wf. eassumption.
+Qed.
